@@ -7,8 +7,9 @@
      either the call returned (status 0) and the observed text is exactly
         "digraph " ++ quoted name ++ " {\n" ++ body ++ "}\n"
      where body is the rendering of the statement list [dot_stmts] (one node statement per node, one edge
-     statement per edge, in order: C18_dot_nodes_once / C18_dot_edges_once), or the call panicked
-     (status 2) and some statement carries an attribute whose value has an unsupported type.
+     statement per edge, in order: C18_dot_nodes_once / C18_dot_edges_once) and no statement carries an
+     attribute of unsupported type, or the call panicked (status 2) and some statement carries an attribute
+     whose value has an unsupported type: the call panics EXACTLY when such an attribute is present.
    Closed under the global context. *)
 From MM Require Import Base.Num Base.GCGraph Model.Dot Proofs.Dot Check.C18 Proofs.CheckBase Proofs.CheckC18Base.
 Local Open Scope Z_scope.
@@ -91,6 +92,32 @@ Proof.
   - exists s. split; [left; reflexivity|exact Es].
 Qed.
 
+Lemma fmt_attr_list_Some : forall l first b, fmt_attr_list first l = Some b -> forall a, In a l -> snd a <> AOther.
+Proof.
+  induction l as [|[name v] l IH]; intros first b H a Ha; [destruct Ha|].
+  cbn in H. destruct (fmt_val v) as [fv|] eqn:Ev; [|discriminate].
+  destruct (fmt_attr_list false l) as [rest|] eqn:El; [|discriminate].
+  destruct Ha as [<-|Ha]; [cbn; intros ->; discriminate|]. eapply IH; eauto.
+Qed.
+Lemma format_attrs_Some : forall l b, format_attrs l = Some b -> forall a, In a l -> snd a <> AOther.
+Proof.
+  intros l b H. unfold format_attrs in H. destruct l as [|x l]; [intros a []|].
+  destruct (fmt_attr_list true (x :: l)) eqn:E; [|discriminate]. eapply fmt_attr_list_Some; eauto.
+Qed.
+Lemma render_stmt_Some : forall s b, render_stmt s = Some b -> forall a, In a (stmt_attrs s) -> snd a <> AOther.
+Proof.
+  intros [i l|i o [l|]] b H; cbn in H.
+  - destruct (format_attrs l) eqn:E; [|discriminate]. eapply format_attrs_Some; eauto.
+  - destruct (format_attrs l) eqn:E; [|discriminate]. eapply format_attrs_Some; eauto.
+  - intros a [].
+Qed.
+Lemma render_all_Some : forall l b, render_all l = Some b -> forall s, In s l -> exists bs, render_stmt s = Some bs.
+Proof.
+  induction l as [|s l IH]; intros b H s' Hs; [destruct Hs|].
+  cbn in H. destruct (render_stmt s) as [x|] eqn:Es; [|discriminate]. destruct (render_all l) as [y|] eqn:El; [|discriminate].
+  destruct Hs as [<-|Hs]; [eauto|]. eapply IH; eauto.
+Qed.
+
 Definition sprint_case_ok (rest : list Z) : Prop :=
   exists g name haslabel labels hasn nattrs hase eattrs status obs,
     (* pure = 1 and the argument graph after the call is the argument graph *)
@@ -101,7 +128,8 @@ Definition sprint_case_ok (rest : list Z) : Prop :=
     (* every node is named by one node statement, every edge by one edge statement, in order *)
     somes (map stmt_node stmts) = nodes_upto (g_n g) /\
     somes (map stmt_edge stmts) = flat_map (fun i => map (fun o => (i, o)) (g_out g i)) (nodes_upto (g_n g)) /\
-    ((status = 0 /\ exists body, render_all stmts = Some body /\
+    ((status = 0 /\ (forall s a, In s stmts -> In a (stmt_attrs s) -> snd a <> AOther) /\
+      exists body, render_all stmts = Some body /\
         obs = ZsN ([100; 105; 103; 114; 97; 112; 104; 32] ++ dot_string (d_name d) ++ [32; 123; 10] ++ body ++ [125; 10])%N)
      \/ (status = 2 /\ exists s a, In s stmts /\ In a (stmt_attrs s) /\ snd a = AOther)).
 
@@ -120,7 +148,9 @@ Proof.
   - exists 0, a8. split; [unfold parse_sprint; prebuild|]. split; [exact Ewf|]. cbv zeta. fold d.
     split; [apply dot_nodes_once|]. split; [apply dot_edges_once|]. left. split; [reflexivity|].
     match goal with H : obytes_eqb _ _ = true |- _ => apply obytes_eqb_some in H; destruct H as (b' & Eb & Eo) end.
-    injection Eb as <-. apply dot_sprint_shape in ES. destruct ES as (body & R & ->). exists body. split; [exact R|exact Eo].
+    injection Eb as <-. apply dot_sprint_shape in ES. destruct ES as (body & R & ->). split.
+    { intros s x Hs Hx. destruct (render_all_Some _ _ R _ Hs) as (bs & Ebs). eapply render_stmt_Some; eauto. }
+    exists body. split; [exact R|exact Eo].
   - exists 2, a8. split; [unfold parse_sprint; prebuild|]. split; [exact Ewf|]. cbv zeta. fold d.
     split; [apply dot_nodes_once|]. split; [apply dot_edges_once|]. right. split; [reflexivity|].
     unfold dot_sprint in ES. destruct (render_all (dot_stmts d (g_out a) (g_n a))) eqn:R; [discriminate|].
